@@ -64,6 +64,13 @@ patch("runtime/chan.go", [
 patch("runtime/time.go", [
     ("			t.rand = cheaprand()", "			t.rand = simTimerRand()"),
 ])
+patch("runtime/symtab.go", [
+    ("					ci := cheaprandn(uint32(len(cache.entries[ck])))", "					ci := simHostRandn(uint32(len(cache.entries[ck])))"),
+])
+_s = open(os.path.join(GR, "src", "runtime/iface.go")).read()
+if _s.count("cheaprand()") != 4:
+    die("iface.go: unexpected cheaprand count")
+emit("runtime/iface.go", _s.replace("cheaprand()", "simHostRand()"))
 patch("runtime/preempt.go", [
     ("	return mp.locks == 0 && mp.mallocing == 0 && mp.preemptoff == \"\" && mp.p.ptr().status == _Prunning && mp.curg != nil && readgstatus(mp.curg)&^_Gscan != _Gsyscall",
      "	if simsched.enabled && mp.curg != nil && mp.curg.bubble != nil {\n		return false\n	}\n	return mp.locks == 0 && mp.mallocing == 0 && mp.preemptoff == \"\" && mp.p.ptr().status == _Prunning && mp.curg != nil && readgstatus(mp.curg)&^_Gscan != _Gsyscall"),
@@ -111,6 +118,7 @@ package runtime
 
 import (
 	"internal/runtime/atomic"
+	"internal/runtime/math"
 	"unsafe"
 )
 
@@ -167,6 +175,22 @@ func simSelectRandn(n uint32) uint32 {
 		return cheaprandn(n)
 	}
 	return simRandn(&simsched.sel, n)
+}
+
+// simHostRand: randomness for process-global runtime caches (pcvalue cache,
+// interface-switch / type-assert caches). Their hit pattern depends on what the
+// process did before this run, so they must not consume from a per-run stream.
+//go:nosplit
+func simHostRand() uint32 {
+	mp := getg().m
+	mp.cheaprand += 0xa0761d6478bd642f
+	hi, lo := math.Mul64(mp.cheaprand, mp.cheaprand^0xe7037ed1a0b428db)
+	return uint32(hi ^ lo)
+}
+
+//go:nosplit
+func simHostRandn(n uint32) uint32 {
+	return uint32((uint64(simHostRand()) * uint64(n)) >> 32)
 }
 
 func simTimerRand() uint32 {
